@@ -200,9 +200,15 @@ class HistSrc(SrcWorld):
 
     def __init__(self, **cfg):
         super().__init__(**cfg)
-        self.alphabet = [("put", "valid"), ("put", "empty"), ("put", "mdonly"), ("put", "missing"), ("put", "unknown"), ("tick",), ("expire",),
+        self.alphabet = [("put", "valid"), ("put", "valid_wide"), ("put", "empty"), ("put", "mdonly"), ("put", "missing"), ("put", "unknown"), ("tick",), ("expire",),
                          ("cancel", "right"), ("ackeof",), ("fin", "NO_ERROR", "DATA_COMPLETE", "FILE_RETAINED"),
                          ("fin", "FILE_CHECKSUM_FAILURE", "DATA_INCOMPLETE", "FILE_RETAINED"), ("nak", ((0, 2),))]
+
+    def consts(self, st):
+        # the remote entity configuration is *not* treated as constant here: a transaction that writes into
+        # it leaks into the next one, which is exactly what this world looks for
+        h = st.S.h
+        return [h.cfg, h.cfg.indication_cfg, st.S.faults, h.check_timer_provider]
 
     def init_model(self, st):
         st.m = {"active": False, "done": False, "n": 0}
@@ -213,7 +219,7 @@ class HistSrc(SrcWorld):
         evs = []
         if st.m["n"] < self.cfg.get("hist_depth", 7):
             for e in super().enabled(st):
-                if e[0] == "put" and st.nput >= 1 and e[1] in ("valid", "empty", "mdonly"):
+                if e[0] == "put" and st.nput >= 1 and e[1] in ("valid", "empty", "mdonly", "valid_wide"):
                     continue
                 evs.append(e)
         if self.idle(st) and st.m["active"]:
@@ -412,6 +418,8 @@ def run(tier: str) -> int:
     worlds.append(HistDst(mode="ack", nak="imm", closure=True, size=4, seg=2, disposition=True, ack_limit=1, nak_limit=1, hist_depth=hd, follow_modes=("ack",)))
     for mode in ("ack", "unack"):
         worlds.append(HistSrc(mode=mode, closure=True, size=4, seg=2, ack_limit=1, hist_depth=7 if tier == "quick" else 9))
+    # segment length derived from the maximum packet length (no configured value); histories with a wider destination id field
+    worlds.append(HistSrc(mode="unack", closure=False, size=14, seg=None, mpl=30, hist_depth=5 if tier == "quick" else 7))
     # re-sends (positive ACK limit 2) inside the history and inside the follow-ups
     worlds.append(HistSrc(mode="ack", closure=False, size=2, seg=2, ack_limit=2, hist_depth=7 if tier == "quick" else 9))
     worlds.append(HistDst(mode="ack", nak="def", closure=False, size=4, seg=2, ack_limit=2, nak_limit=2, hist_depth=hd, follow_modes=("ack",)))
